@@ -1,0 +1,43 @@
+//go:build verif
+
+package cleaner
+
+// Contracts for the govc verifier (/verif). This file contains comments only;
+// it does not change the compiled package.
+//
+// IdleInvoker is a monitor: useCount and wakeup are guarded by lock. While a
+// cleaning is in progress (wakeup != nil) nobody is using the resources.
+// acquired(i) is the verifier's per-call ledger of successful Acquire calls
+// minus Release calls on invoker i.
+
+//@ ghost map acquired(ref) int zero
+
+//@ monitor IdleInvoker.lock
+//@   props C12
+//@   guards useCount wakeup
+//@   invariant cleaning-means-idle: this.wakeup != nil ==> this.useCount == 0
+
+// clean is entered and left with the lock held; it runs the cleaner with the
+// lock released, only when nothing is in use and no other cleaning is running.
+//@ func (*IdleInvoker).clean
+//@   props C12
+//@   requires only-cleaned-when-idle: i.useCount == 0
+//@   panics_if i.wakeup != nil
+//@   at call dyn#1 assert cleaner-runs-without-the-lock: held(i.lock) == -1
+//@   at call dyn#1 assert cleaning-is-marked-and-idle: i.wakeup != nil && i.useCount == 0
+//@   at call Lock#1 assume_post i.wakeup == wakeup && i.useCount == 0 -- rely: while this thread's cleaning is marked (wakeup set) no other critical section changes useCount or wakeup: Acquire waits for wakeup == nil before touching them, Release panics at useCount == 0
+//@   ensures cleaning-finished: i.wakeup == nil && i.useCount == 0
+
+//@ func (*IdleInvoker).Acquire
+//@   props C12
+//@   assume i.useCount < MaxUint64 -- the use count cannot reach 2^64
+//@   modifies acquired[i], IdleInvoker.useCount, IdleInvoker.wakeup, closed
+//@   ensures acquired-on-success: r0 == nil ==> i.useCount >= 1 && acquired(i) == old(acquired(i)) + 1
+//@   ensures not-acquired-on-error: r0 != nil ==> acquired(i) == old(acquired(i))
+//@   ghostset acquired[i] = old(acquired(i)) + 1 if r0 == nil
+
+//@ func (*IdleInvoker).Release
+//@   props C12
+//@   modifies acquired[i], IdleInvoker.useCount, IdleInvoker.wakeup, closed
+//@   ensures released: acquired(i) == old(acquired(i)) - 1
+//@   ghostset acquired[i] = old(acquired(i)) - 1
